@@ -15,7 +15,8 @@ LEVEL_TEXT = ("For a grid of timing configurations the model's scheduled transmi
               "disturbance (announcer stop, instance stop, stop+restart, connection loss, unicast/multicast FindService, stop inside "
               "a pending answer window, double stop) is injected at every such instant in the four placement classes; random "
               "multi-instance scripts on top. Decoded Offer/StopOffer entries must match the timeline model (must / may / "
-              "forbidden), and no offer with TTL>0 may be queued after the StopOffer until the next start")
+              "forbidden), no offer with TTL>0 may be queued after the StopOffer until the next start, and on the wire no live offer "
+              "may leave - to anyone - after the StopOffer has left (a unicast answer still waiting in a send collector included)")
 LEVEL_NOTE = ("trusts the timeline model in this module, pv/refwire.py, forced random draws (same fraction for every draw of a "
               "scenario); events closer than the clock resolution to a stop are 'either'; a non-cyclic instance stopped before its "
               "first offer may or may not send a StopOffer (the property only speaks about cyclic ones)")
